@@ -15,19 +15,32 @@ from .cachefam import (CacheFacts, rule_coherence_capacity, rule_invalidation, r
 
 def run(prog: Program, rep: Report):
     cf = CacheFacts(prog, "LRUCache")
-    rule_invalidation(prog, rep, cf, "C06.R1")
-    rule_coherence_capacity(prog, rep, cf, "C06.R2", "C06.R3")
-    r4_ends(prog, rep, cf)
-    rule_value_stored(prog, rep, cf, "C06.R5")
-    r6_payload_layout(prog, rep, cf)
-    rule_list_ops(prog, rep, cf, "C06.R7")
-    rule_lookup_source(prog, rep, cf, "C06.R8")
+    rep.attempt(lambda: rule_invalidation(prog, rep, cf, "C06.R1"))
+    rep.attempt(lambda: rule_coherence_capacity(prog, rep, cf, "C06.R2", "C06.R3"))
+    rep.attempt(lambda: r4_ends(prog, rep, cf))
+    rep.attempt(lambda: rule_value_stored(prog, rep, cf, "C06.R5"))
+    rep.attempt(lambda: r6_payload_layout(prog, rep, cf))
+    rep.attempt(lambda: rule_list_ops(prog, rep, cf, "C06.R7"))
+    rep.attempt(lambda: rule_lookup_source(prog, rep, cf, "C06.R8"))
     from .memo import public_entry_points, rule_derived_state
-    rule_derived_state(prog, rep, "C06.R9", cf.cls, {cf.dict_field, cf.list_field}, public_entry_points(prog, cf.cls), config={cf.cap_field},
+    rep.attempt(lambda: rule_derived_state(prog, rep, "C06.R9", cf.cls, {cf.dict_field, cf.list_field}, public_entry_points(prog, cf.cls), config={cf.cap_field},
                        what="a snapshot of the order, a remembered node or a bound method of the list must not survive a store, delete, "
-                            "eviction or clear")
+                            "eviction or clear"))
     from .ownership import rule_no_class_state
-    rule_no_class_state(prog, rep, "C06.R10", [cf.cls, cf.lf.lst])
+    rep.attempt(lambda: rule_no_class_state(prog, rep, "C06.R10", [cf.cls, cf.lf.lst]))
+    from .mixins import rule_mixin_surface
+    rep.attempt(lambda: rule_mixin_surface(prog, rep, "C06.R11", [cf.cls]))
+    from .cachefam import rule_accepts_capacity
+    rep.attempt(lambda: rule_accepts_capacity(prog, rep, cf, "C06.R14"))
+    from .cachefam import rule_value_parametric
+
+    def is_value(e, f, flow):
+        # <node>.data[1]: the value position of the (key, value) payload
+        return isinstance(e, ast.Subscript) and isinstance(e.slice, ast.Constant) and e.slice.value == 1 \
+            and isinstance(e.value, ast.Attribute) and e.value.attr == cf.lf.payload
+    rep.attempt(lambda: rule_value_parametric(prog, rep, cf, "C06.R13", is_value, "<node>.data[1]"))
+    from .mixins import rule_fresh_iterator
+    rep.attempt(lambda: rule_fresh_iterator(prog, rep, "C06.R12", [cf.cls]))
 
 
 class _UseMoves(Client):
